@@ -998,7 +998,7 @@ fn through_created(r: &mut Report, rng: &mut Rng, w: &World, nests: &Nests<NA>, 
 	if w.big || w.j.is_empty() { return; }
 	let (t, j) = (&w.t, &w.j);
 	let base = *rng.pick(&CREATED_VERSIONS[..]);
-	let vs: Vec<(u16, u16)> = j.iter().map(|_| if rng.chance(1, 3) { (base.0, if base.0 >= 67 { 0 } else { *rng.pick(&[0u16, 1, 3, 65535][..]) }) /* duke's reader rejects versions above 67.0 */ } else { *rng.pick(&CREATED_VERSIONS[..]) }).collect();
+	let vs: Vec<(u16, u16)> = j.iter().map(|_| if rng.chance(1, 3) { (base.0, if base.0 >= 67 { 0 } else if base.0 >= 56 { *rng.pick(&[0u16, 65535][..]) } else { *rng.pick(&[0u16, 1, 3, 65535][..]) }) /* duke's reader rejects versions above 67.0; from major 56 on JVMS 4.1 allows only minor 0 and 65535 (the independent parser refuses anything else, also in a created class) */ } else { *rng.pick(&CREATED_VERSIONS[..]) }).collect();
 	let mut input = vec![];
 	for (c, (major, minor)) in j.iter().zip(&vs) {
 		let mut b = build(c);
